@@ -348,7 +348,19 @@ class Builder:
         if hasattr(ast, "TryStar") and isinstance(s, ast.TryStar):
             raise Undecided(f"try/except* at line {s.lineno} not modelled")
         if isinstance(s, ast.Match):
-            raise Undecided(f"match statement at line {s.lineno} not modelled")
+            # a multi-way branch on the subject: each case body may run; unless a case is irrefutable (a bare capture / wildcard
+            # without a guard), none may
+            n = self.new("test", s)
+            if expr_may_raise(s.subject, self.attr_may_raise):
+                self._exc_edge(n, ctx)
+            irrefutable = False
+            for case in s.cases:
+                cfg.edge(n, self.seq(case.body, ctx), "true")
+                if case.guard is None and isinstance(case.pattern, ast.MatchAs) and case.pattern.pattern is None:
+                    irrefutable = True
+            if not irrefutable:
+                cfg.edge(n, ctx.get("next"), "false")
+            return n
         if isinstance(s, ast.Expr) and isinstance(s.value, ast.Call) and dotted_name(s.value.func) in NORETURN_CALLS:
             # helpers that always raise (testtools.compat.reraise, sys.exit)
             n = self.new("raise", s)
